@@ -109,6 +109,9 @@ def is_int_term(t, ctx):
         return True
     if k == 'in':
         return t[1] in ctx.int_fields
+    if k == 'payload':
+        # the payload of an Option<integer> cell
+        return t[1][0] == 'in' and ('?' + t[1][1]) in ctx.int_fields
     if k == 'arg':
         return t[1] in ctx.int_args
     if k == 'op':
@@ -150,6 +153,8 @@ def linear(t, ctx):
             return {t: 1}, 0
         raise NonLinear()
     if k in ('len', 'idx', 'pos', 'in', 'arg', 'mu'):
+        return {t: 1}, 0
+    if k == 'payload' and t[1][0] == 'in' and ('?' + t[1][1]) in ctx.int_fields:
         return {t: 1}, 0
     raise NonLinear()
 
